@@ -300,4 +300,231 @@ theorem assemble_applyCompute_lazy (o o' : Vtf) (filt minor sheetVer : Nat) (asw
       hasSheetRes, hw, hh]
   simp only [hfb]
 
+/-! ### the second `compute_mipmaps` succeeds on power-of-two textures -/
+
+theorem pow2_level (a m : Nat) : max (2 ^ a >>> m) 1 = 2 ^ (a - m) := by
+  by_cases h : m ≤ a
+  · rw [shiftRight_two_pow _ _ h]; exact Nat.max_eq_left (Nat.two_pow_pos _)
+  · have hlt : 2 ^ a < 2 ^ m := Nat.pow_lt_pow_right (by decide) (by omega)
+    rw [Nat.shiftRight_eq_div_pow, Nat.div_eq_of_lt hlt, show a - m = 0 by omega]; rfl
+
+theorem readerDims_pow2 (a b m : Nat) : readerDims (2 ^ a) (2 ^ b) m = (2 ^ (a - m), 2 ^ (b - m)) := by
+  simp [readerDims, pow2_level]
+
+theorem rescaleOK_pow2 (a b m : Nat) :
+    rescaleOK (2 ^ (a - (m + 1))) (2 ^ (b - (m + 1))) (2 ^ (a - m)) (2 ^ (b - m)) = true := by
+  have h1 : 2 ^ (a - (m + 1)) = 2 ^ (a - m) ∨ 2 * 2 ^ (a - (m + 1)) = 2 ^ (a - m) := by
+    by_cases h : m < a
+    · right; rw [show a - m = (a - (m + 1)) + 1 by omega, Nat.pow_succ]; ring
+    · left; rw [show a - (m + 1) = 0 by omega, show a - m = 0 by omega]
+  have h2 : 2 ^ (b - (m + 1)) = 2 ^ (b - m) ∨ 2 * 2 ^ (b - (m + 1)) = 2 ^ (b - m) := by
+    by_cases h : m < b
+    · right; rw [show b - m = (b - (m + 1)) + 1 by omega, Nat.pow_succ]; ring
+    · left; rw [show b - (m + 1) = 0 by omega, show b - m = 0 by omega]
+  simp only [rescaleOK, Bool.and_eq_true, Bool.or_eq_true, beq_iff_eq]
+  exact ⟨h1, h2⟩
+
+theorem levelAfter_ok_lazy (fr : List (Key × FrameM)) (filt f d a b : Nat) (hf : filt ≤ 4) :
+    ∀ m, (∀ j, j ≤ m → ∃ x, lookupFrame fr (f, d, j) = some ⟨2 ^ (a - j), 2 ^ (b - j), none, x⟩) →
+      ∃ out, levelAfter fr filt f d m = .ok out ∧ out.w = 2 ^ (a - m) ∧ out.h = 2 ^ (b - m) := by
+  intro m
+  induction m with
+  | zero =>
+    intro hl
+    obtain ⟨x, hx⟩ := hl 0 (Nat.le_refl 0)
+    refine ⟨_, by simp [levelAfter, hx, pure, Except.pure]; rfl, ?_, ?_⟩
+    · exact (load_dims _).1
+    · exact (load_dims _).2
+  | succ m ih =>
+    intro hl
+    obtain ⟨p, hp, hpw, hph⟩ := ih (fun j hj => hl j (by omega))
+    obtain ⟨x, hx⟩ := hl (m + 1) (Nat.le_refl _)
+    obtain ⟨out, hout⟩ := scaleDown_isSome filt p.w p.h (2 ^ (a - (m + 1))) (2 ^ (b - (m + 1)))
+      (p.data.getD []) hf
+    refine ⟨{ w := 2 ^ (a - (m + 1)), h := 2 ^ (b - (m + 1)), data := some out, fileData := x }, ?_, rfl, rfl⟩
+    rw [levelAfter, hp]
+    simp only [hx, hpw, hph, rescaleOK_pow2, Bool.not_true, Bool.false_eq_true, if_false]
+    rw [← hpw, ← hph, hout]
+    rfl
+
+theorem mapM_ok_of_forall {α β : Type} (f : α → Except Err β) :
+    ∀ (l : List α), (∀ a ∈ l, ∃ b, f a = .ok b) → ∃ r, l.mapM f = .ok r := by
+  intro l
+  induction l with
+  | nil => intro _; exact ⟨[], rfl⟩
+  | cons a l ih =>
+    intro h
+    obtain ⟨b, hb⟩ := h a (by simp)
+    obtain ⟨r, hr⟩ := ih (fun a' ha' => h a' (by simp [ha']))
+    exact ⟨b :: r, by rw [List.mapM_cons, hb, hr]; rfl⟩
+
+theorem layoutFrom_mem (fsz : Nat → Nat → Nat) (dims : Nat → Nat × Nat) :
+    ∀ (ks : List Key) (off : Nat) (e : Key × Nat × Nat × Nat), e ∈ layoutFrom fsz dims ks off →
+      e.1 ∈ ks ∧ (e.2.1, e.2.2.1) = dims e.1.2.2 := by
+  intro ks
+  induction ks with
+  | nil => intro off e he; simp [layoutFrom] at he
+  | cons k ks ih =>
+    intro off e he
+    simp only [layoutFrom, List.mem_cons] at he
+    rcases he with rfl | he
+    · exact ⟨by simp, rfl⟩
+    · have := ih _ e he
+      exact ⟨by simp [this.1], this.2⟩
+
+/-- extra conditions under which re-saving a read file cannot fail: power-of-two size, at least one
+declared level, and (when there is a thumbnail) a non-empty thumbnail and at least one frame. -/
+def resaveWF (v : Vtf) (a b : Nat) : Prop :=
+  v.width = 2 ^ a ∧ v.height = 2 ^ b ∧ 1 ≤ v.mipCount ∧
+    (v.lowFmt ≠ fmtNone → 1 ≤ v.low.w ∧ 1 ≤ v.low.h ∧ 1 ≤ v.frameCount)
+
+theorem objOfRead_lookup (v : Vtf) (minor sheetVer n a b : Nat) (file : List Nat)
+    (hd : viewDepth v minor = v.depth) (hw : v.width = 2 ^ a) (hh : v.height = 2 ^ b) (k : Key)
+    (hk : k ∈ fileKeys v.mipCount v.frameCount (depthSeq v.flags minor v.depth)) :
+    ∃ x, lookupFrame (objOfRead file (viewOf v minor sheetVer n)).frames k
+      = some ⟨2 ^ (a - k.2.2), 2 ^ (b - k.2.2), none, x⟩ := by
+  have hkeys : (viewOf v minor sheetVer n).frames.map (·.1)
+      = fileKeys v.mipCount v.frameCount (depthSeq v.flags minor v.depth) := by
+    simp only [viewOf, hd]; exact layoutFrom_keys _ _ _ _
+  have hnd : ((viewOf v minor sheetVer n).frames.map (·.1)).Nodup := by
+    rw [hkeys]; exact fileKeys_nodup _ _ _ (depthSeq_nodup _ _ _)
+  rw [← hkeys] at hk
+  obtain ⟨e, he, rfl⟩ := List.mem_map.mp hk
+  have hdim := (layoutFrom_mem _ _ _ _ e (by simpa [viewOf] using he)).2
+  rw [hw, hh, readerDims_pow2] at hdim
+  have hlook := lookup_map_of_mem
+    (fun (e : Key × Nat × Nat × Nat) => (⟨e.2.1, e.2.2.1, none,
+      decodeOpt file (viewOf v minor sheetVer n).fmt e.2.1 e.2.2.1 e.2.2.2⟩ : FrameM)) (·.1)
+    (viewOf v minor sheetVer n).frames hnd e he
+  have h1 : e.2.1 = 2 ^ (a - e.1.2.2) := by simpa using congrArg Prod.fst hdim
+  have h2 : e.2.2.1 = 2 ^ (b - e.1.2.2) := by simpa using congrArg Prod.snd hdim
+  refine ⟨decodeOpt file (viewOf v minor sheetVer n).fmt e.2.1 e.2.2.1 e.2.2.2, ?_⟩
+  simp only [objOfRead]
+  rw [hlook, h1, h2]
+
+theorem computeMips_objOfRead_ok (v : Vtf) (minor sheetVer n a b : Nat) (file : List Nat)
+    (hd : viewDepth v minor = v.depth) (hr : resaveWF v a b) :
+    ∃ frames', computeMips (objOfRead file (viewOf v minor sheetVer n)) 4 = .ok frames' := by
+  obtain ⟨hw, hh, hmc, _⟩ := hr
+  have hmax : max v.mipCount 1 = v.mipCount := Nat.max_eq_left hmc
+  have hlk := objOfRead_lookup v minor sheetVer n a b file hd hw hh
+  unfold computeMips
+  have hcheck : (fileKeys (max (objOfRead file (viewOf v minor sheetVer n)).mipCount 1)
+      (objOfRead file (viewOf v minor sheetVer n)).frameCount
+      (depthSeq (objOfRead file (viewOf v minor sheetVer n)).flags
+        (objOfRead file (viewOf v minor sheetVer n)).verMinor
+        (objOfRead file (viewOf v minor sheetVer n)).depth)).all
+      (fun k => (lookupFrame (objOfRead file (viewOf v minor sheetVer n)).frames k).isSome) = true := by
+    have : fileKeys (max (objOfRead file (viewOf v minor sheetVer n)).mipCount 1)
+        (objOfRead file (viewOf v minor sheetVer n)).frameCount
+        (depthSeq (objOfRead file (viewOf v minor sheetVer n)).flags
+          (objOfRead file (viewOf v minor sheetVer n)).verMinor
+          (objOfRead file (viewOf v minor sheetVer n)).depth)
+        = fileKeys v.mipCount v.frameCount (depthSeq v.flags minor v.depth) := by
+      simp [objOfRead, viewOf, hd, hmax]
+    rw [this, List.all_eq_true]
+    intro k hk
+    obtain ⟨x, hx⟩ := hlk k hk
+    simp [hx]
+  rw [if_pos hcheck]
+  apply mapM_ok_of_forall
+  rintro ⟨k, fr⟩ _
+  unfold computeOne
+  by_cases hin : inComputeRange (objOfRead file (viewOf v minor sheetVer n)) k = true
+  · simp only [hin, if_true]
+    have hin' : (k.1 < v.frameCount ∧ k.2.1 ∈ depthSeq v.flags minor v.depth) ∧ k.2.2 < v.mipCount := by
+      simpa [inComputeRange, objOfRead, viewOf, hd, hmax, Bool.and_eq_true] using hin
+    obtain ⟨out, hout, _, _⟩ := levelAfter_ok_lazy (objOfRead file (viewOf v minor sheetVer n)).frames 4
+      k.1 k.2.1 a b (by decide) k.2.2 (by
+        intro j hj
+        exact hlk (k.1, k.2.1, j) ((mem_fileKeys _ _ _ _).mpr ⟨hin'.1.1, hin'.1.2, by simp; omega⟩))
+    exact ⟨(k, out), by simp [hout]⟩
+  · simp only [hin, Bool.false_eq_true, if_false]
+    exact ⟨_, rfl⟩
+
+theorem half_pow2 (x lw : Nat) (h : 2 ^ x / 2 = lw) (hl : 1 ≤ lw) : 2 * lw = 2 ^ x := by
+  cases x with
+  | zero => simp at h; omega
+  | succ x => rw [Nat.pow_succ] at h ⊢; omega
+
+theorem lowStep_ok (frames : List (Key × FrameM)) (side : Nat) (low : FrameM) (m x y : Nat)
+    (fr : FrameM) (hl : lookupFrame frames (0, side, m) = some fr) (hw : fr.w = 2 ^ x) (hh : fr.h = 2 ^ y)
+    (h1 : 1 ≤ low.w) (h2 : 1 ≤ low.h) : ∃ low', lowStep frames side 4 low m = .ok low' := by
+  unfold lowStep
+  simp only [hl, bind, Except.bind, pure, Except.pure]
+  by_cases hm : (fr.w / 2 == low.w && fr.h / 2 == low.h) = true
+  · simp only [hm, if_true]
+    simp only [Bool.and_eq_true, beq_iff_eq] at hm
+    have e1 : 2 * low.w = fr.w := by rw [hw] at hm ⊢; exact half_pow2 _ _ hm.1 h1
+    have e2 : 2 * low.h = fr.h := by rw [hh] at hm ⊢; exact half_pow2 _ _ hm.2 h2
+    have hok : rescaleOK low.w low.h fr.w fr.h = true := by simp [rescaleOK, e1, e2]
+    simp only [hok, Bool.not_true, Bool.false_eq_true, if_false]
+    cases hd : fr.data with
+    | none => exact ⟨_, rfl⟩
+    | some d =>
+      obtain ⟨out, hout⟩ := scaleDown_isSome 4 fr.w fr.h low.w low.h d (by decide)
+      simp only [hout]
+      exact ⟨_, rfl⟩
+  · simp only [hm, Bool.false_eq_true, if_false]
+    exact ⟨_, rfl⟩
+
+theorem foldlM_lowStep_ok (frames : List (Key × FrameM)) (side a b : Nat) :
+    ∀ (ms : List Nat) (low : FrameM), 1 ≤ low.w → 1 ≤ low.h →
+      (∀ m ∈ ms, ∃ fr, lookupFrame frames (0, side, m) = some fr ∧ fr.w = 2 ^ (a - m) ∧ fr.h = 2 ^ (b - m)) →
+      ∃ low', ms.foldlM (lowStep frames side 4) low = .ok low' := by
+  intro ms
+  induction ms with
+  | nil => intro low _ _ _; exact ⟨low, rfl⟩
+  | cons m ms ih =>
+    intro low h1 h2 hfr
+    obtain ⟨fr, hl, hw, hh⟩ := hfr m (by simp)
+    obtain ⟨l1, hl1⟩ := lowStep_ok frames side low m _ _ fr hl hw hh h1 h2
+    have hd := lowStep_dims _ _ _ _ _ _ hl1
+    obtain ⟨l2, hl2⟩ := ih l1 (by rw [hd.1]; exact h1) (by rw [hd.2.1]; exact h2)
+      (fun m' hm' => hfr m' (by simp [hm']))
+    exact ⟨l2, by rw [List.foldlM_cons, hl1]; exact hl2⟩
+
+/-- `compute_mipmaps()` cannot fail on the object read from a saved power-of-two texture. -/
+theorem applyCompute_objOfRead_ok (v : Vtf) (minor sheetVer n a b : Nat) (file : List Nat)
+    (hd : viewDepth v minor = v.depth) (hdep : 1 ≤ v.depth) (hr : resaveWF v a b) :
+    ∃ o', applyCompute (objOfRead file (viewOf v minor sheetVer n)) 4 = .ok o' := by
+  obtain ⟨frames', hm⟩ := computeMips_objOfRead_ok v minor sheetVer n a b file hd hr
+  obtain ⟨hw, hh, hmc, hlowwf⟩ := hr
+  have hlow : ∃ low', computeLow (objOfRead file (viewOf v minor sheetVer n)) frames' 4 = .ok low' := by
+    unfold computeLow
+    by_cases hn : v.lowFmt = fmtNone
+    · have : (objOfRead file (viewOf v minor sheetVer n)).lowFmt = fmtNone := by simpa [objOfRead, viewOf] using hn
+      simp only [this, ne_eq, not_true_eq_false, if_false]
+      exact ⟨_, rfl⟩
+    · have hne : (objOfRead file (viewOf v minor sheetVer n)).lowFmt ≠ fmtNone := by
+        simpa [objOfRead, viewOf] using hn
+      obtain ⟨hlw, hlh, hfc⟩ := hlowwf hn
+      simp only [hne, ne_eq, not_false_eq_true, if_true]
+      apply foldlM_lowStep_ok frames' _ a b
+      · simpa [objOfRead, viewOf] using hlw
+      · simpa [objOfRead, viewOf] using hlh
+      · intro m hmem
+        have hmlt : m < v.mipCount := by simpa [objOfRead, viewOf] using hmem
+        -- the key (0, side, m) is one of the file's keys
+        have hside : (if (objOfRead file (viewOf v minor sheetVer n)).flags &&& envmapFlag ≠ 0 then 3 else 0)
+            ∈ depthSeq v.flags minor v.depth := by
+          have hfl : (objOfRead file (viewOf v minor sheetVer n)).flags = v.flags := by simp [objOfRead, viewOf]
+          rw [hfl, mem_depthSeq]
+          unfold sideCount
+          split
+          · split <;> omega
+          · omega
+        have hk := (mem_fileKeys v.mipCount v.frameCount (depthSeq v.flags minor v.depth)
+          (0, (if (objOfRead file (viewOf v minor sheetVer n)).flags &&& envmapFlag ≠ 0 then 3 else 0), m)).mpr
+          ⟨by show 0 < v.frameCount; omega, hside, hmlt⟩
+        obtain ⟨x, hx⟩ := objOfRead_lookup v minor sheetVer n a b file hd hw hh _ hk
+        rcases computeMips_lookup _ 4 frames' hm _ with ⟨h1, _⟩ | ⟨fr, fr', h1, h2, hs⟩
+        · rw [hx] at h1; cases h1
+        · rw [hx] at h1
+          cases h1
+          exact ⟨fr', h2, hs.1, hs.2.1⟩
+  obtain ⟨low', hl⟩ := hlow
+  refine ⟨{ objOfRead file (viewOf v minor sheetVer n) with frames := frames', low := low' }, ?_⟩
+  simp [applyCompute, hm, hl]
+
 end C15
